@@ -91,7 +91,7 @@ def execute(case, ctx):
         ref = RefJoint.from_factors(world["card"], world["factors"])
         build = lambda: build_mn(world, names, factor_order=case["config"]["factor_order"], edge_order=case["config"]["edge_order"])
     z = ref.partition()
-    vals = [x for t in world["tables"] for row in t for x in row] if kind == "bn" else [x for f in world["factors"] for x in f["values"]]
+    vals = [[x for row in t for x in row] for t in world["tables"]] if kind == "bn" else [list(f["values"]) for f in world["factors"]]
     backend = seams.effective_backend(case.get("backend", "numpy"), vals)
     seams.set_backend(backend)
     if backend == "torch":
